@@ -596,7 +596,7 @@ fn main() {
     ];
     vcore::main(
         "C14",
-        "part pocket. (1) SCMP error packets built with sciparse's models (5 error kinds x destination/source host kinds v4/v6/service x empty, one-hop and standard paths of 2..64 hop fields x offending-packet lengths 0..9216 directed at the quoting budget of each header size, plus random ones): the encoded packet, read by the reference decoder, is <= 1232 bytes, its PayloadLen is truthful, its checksum verifies per RFC 1071 over pseudo-header||message, and it quotes exactly the first min(len, room) bytes of the offending packet. (2) Whole simulator (NetworkSimulator::dispatch over a generated topology with capturing receivers in every AS): a packet (UDP, echo request, echo request with a router alert, SCMP error of every type incl. unassigned ones, malformed SCMP) is sent over an authentic path with one fault (MAC, link down, expired, unknown egress, wrong destination AS, no receiver for the host) or none. With the outcome predicted by the reference router: at most one packet reaches any receiver; a deliverable packet (incl. SCMP errors) reaches the destination receiver byte-identical to what the reference router hands over; a refused packet yields exactly one SCMP error at the sender's AS which satisfies (1) with the packet as it arrived at the refusing AS as offending packet, is addressed to the sender and comes from the refusing AS - unless the refused packet is an SCMP error or malformed SCMP, in which case nothing may be sent; a router-alert echo request is answered by the alerted AS with an echo reply carrying identifier, sequence number and data, addressed to the requester, valid checksum. Non-trivial = truncated quote / SCMP error or malformed SCMP refused / error reply checked / router echo answered.",
+        "part pocket. (1) SCMP error packets built with sciparse's models (5 error kinds x destination/source host kinds v4/v6/service x empty, one-hop and standard paths of 2..64 hop fields x offending-packet lengths 0..9216 directed at the quoting budget of each header size, plus random ones): the encoded packet, read by the reference decoder, is <= 1232 bytes, its PayloadLen is truthful, its checksum verifies per RFC 1071 over pseudo-header||message, and it quotes exactly the first min(len, room) bytes of the offending packet. (2) Whole simulator (NetworkSimulator::dispatch over a generated topology with capturing receivers in every AS): a packet (UDP, echo request, echo request with a router alert, SCMP error of every type incl. unassigned ones, malformed SCMP) is sent over an authentic path with one fault (MAC, link down, expired, unknown egress, wrong destination AS, no receiver for the host) or none. With the outcome predicted by the reference router: at most one packet reaches any receiver; a deliverable packet (incl. SCMP errors) reaches the destination receiver byte-identical to what the reference router hands over; a refused packet yields at most one SCMP error, delivered at the sender's AS; if one arrives it satisfies (1) with the packet as it arrived at the refusing AS as offending packet (compared modulo the path state routers rewrite: CurrINF/CurrHF, SegIDs, router-alert flags), is addressed to the sender and comes from the refusing AS (an error that is lost on its way back over the reversed path is counted, not claimed); if the refused packet carries a readable SCMP error type (< 128, assigned or not) nothing at all may be sent, for other malformed SCMP payloads either behaviour is accepted; a router-alert echo request is answered by the alerted AS with an echo reply carrying identifier, sequence number and data, addressed to the requester, valid checksum. Non-trivial = truncated quote / SCMP error or malformed SCMP refused / error reply checked / router echo answered.",
         &["peering paths are not used (C13 known finding)", "router alerts are outside the reference router: for those cases only the reply is judged"],
         &subs,
         post,
